@@ -1228,8 +1228,62 @@ impl History {
                     }
                 }
             }
+            // one history in eight, half-way: a crowd of records that tie in rating AND title (copies under different ids) arrives
+            // at a live id, the empty query is answered under a generous limit, the limit is lowered, and the empty query is
+            // answered again with nothing in between - which of the tied copies are listed is whatever a stand-alone store with
+            // that limit lists (draws from a generator of its own: the rest of the history is what it would have been anyway)
+            if (cx.idx / 12) % 8 == 3 && opk == nops / 2 && model.contains_key(&id) {
+                let mut r2 = Rng::new(mix(cx.idx, 0x71ed));
+                let copies = r2.range(8, 40);
+                let names = ["anna", "anna b", "bob", "", "élan"];
+                let nn = r2.range(1, names.len());
+                let ra = r2.below(9);
+                let (l1, l2) = *r2.pick(&[(40usize, 12usize), (64, 41), (41, 12), (100, 40), (300, 100), (12, 4), (64, 3)]);
+                hist.push(format!("add x{} ({} titles x {} copies, rating {}) to {}; limit({},{}) search({},\"\") limit({},{}) search({},\"\")", copies * nn, nn, copies, ra, id, id, l1, id, id, l2, id));
+                cx.ctx(format!("C20 lang={} history={:?}", lang, hist));
+                for k in 0..copies * nn {
+                    let (rid, t) = (5000 + k, names[k % nn]);
+                    if via_bridge {
+                        bridge::add_record(id, rid, t, ra);
+                    } else {
+                        add_record(id, rid, t, ra);
+                    }
+                    model.get_mut(&id).unwrap().0.add(&(rid, t.to_string(), ra));
+                }
+                for (step, lim) in [l1, l2].iter().enumerate() {
+                    if via_bridge {
+                        bridge::set_limit(id, *lim);
+                        bridge::run_search(id, "");
+                    } else {
+                        set_limit(id, *lim);
+                        run_search(id, "");
+                    }
+                    let m = model.get_mut(&id).unwrap();
+                    m.0.store.limit = *lim;
+                    m.1 = m.0.search("");
+                    {
+                        // (each list is read as soon as it is there)
+                        let got: Hits = if via_bridge {
+                            let ids = bridge::get_result_ids(id);
+                            let titles = bridge::get_result_titles(id);
+                            let mut fields: Vec<String> = titles.split('\0').map(|x| x.to_string()).collect();
+                            fields.pop();
+                            ids.into_iter().zip(fields.into_iter()).collect()
+                        } else {
+                            using_results(id, |b| b.iter().map(|r| (r.id, r.title.clone())).collect())
+                        };
+                        cx.eval();
+                        if got != m.1 {
+                            cx.fail("result-buffer-differs-from-model", json!({"lang": lang, "via_bridge": via_bridge, "history": hist, "id": id, "got": got, "expected": m.1, "at": format!("after empty search {} of the two in the last step", step + 1)}));
+                        }
+                    }
+                }
+                last_q_of_id.insert(id, String::new());
+                last_q = Some((id, String::new()));
+                cx.count("crowds of tied copies listed under a generous limit and again under a lower one");
+            }
             // observe the live ids
-            let read_now = read_always || opk + 1 == nops || cx.rng.chance(1, 4);
+            let read_now = read_always || (cx.idx / 12) % 8 == 3 && opk == nops / 2 || opk + 1 == nops || cx.rng.chance(1, 4);
             // now and then a reader does something to a store while it holds the result buffer (copying hits into another
             // store is the obvious use): add a record to a live id - the reader's own or another - from inside the closure
             let nested: Option<(usize, usize, usize, String, usize)> = if !via_bridge && !model.is_empty() && cx.rng.chance(1, 12) {
@@ -1348,7 +1402,7 @@ impl Prop for History {
         match self.0 {
             Which::NoCrash => vec![("searches", 20000, 200000), ("searches with hits", 5000, 50000), ("joined-record hits (two spans from a one-word query)", 50, 500), ("non-ASCII queries", 2000, 20000), ("limit 0", 200, 2000), ("limit 65536", 200, 2000), ("histories with boundary-value record ids", 2000, 20000), ("long-text searches", 500, 5000), ("long-text searches with a query over 255 characters", 100, 1000), ("corpus-store searches", 300, 3000), ("long-text cases with a giant word or a 1000+ word title", 20, 200), ("soak searches on one store", 600000, 2500000), ("most searches on one store max ", 66000, 66000), ("soak stores with more than 2^16 records", 2, 8), ("adds re-using the id of an earlier record", 5000, 50000), ("registry: searches", 10000, 300000), ("registry: searches with hits", 1500, 45000), ("registry: limit changes", 5000, 150000), ("registry: readers that call back into the registry", 1500, 45000), ("code points put through a store", 1000000, 1000000), ("histories with a crowd of 21-60 equally rated records, some without words, under the empty query", 300, 3000)],
             Which::NoStale => vec![("search after add following an earlier search", 2000, 20000), ("search after clear following an earlier search", 500, 5000), ("search after limit following an earlier search", 500, 5000), ("empty-query search after a mutation following an earlier search", 1000, 10000), ("exhaustive histories", 20000, 200000), ("histories on a crowded store", 2000, 20000), ("histories that clear and refill a crowded store", 2000, 20000), ("histories growing a store past 64/128/256/512 records with searches in between", 200, 5000), ("histories growing a store past 1024 records with searches in between", 60, 1500), ("soak searches on one store", 1000000, 4000000), ("search repeating the previous query after a mutation", 2000, 20000), ("operations on another store of the same thread inside a history", 3000, 30000), ("registry-driven searches compared with a fresh store", 5000, 50000), ("adds re-using the id of an earlier record", 3000, 30000), ("histories whose searches run on other threads than the adds (the store is moved there and back)", 1500, 15000), ("histories whose reference stores are built and searched on threads of their own", 3000, 30000), ("histories with a very long word next to a threshold match", 2000, 20000), ("histories with more than twenty fully tied records and a shrinking limit", 2000, 20000), ("histories with two lives of the same size ending in the same query", 2000, 20000), ("histories in which a text is followed by its own normalised spelling", 2000, 20000), ("histories with two long queries that share their first twenty letters", 1500, 15000), ("histories with 2^8 or 2^16 lives of one store between two equal searches", 500, 5000), ("histories with two closely related marker pairs set one right after the other", 800, 8000)],
-            Which::Registry => vec![("observations", 20000, 200000), ("observations with >= 2 live ids holding results", 2000, 20000), ("destroy", 300, 3000), ("searches", 3000, 30000), ("histories over 4-20 store ids", 1000, 10000), ("bursts of 45-120 records", 300, 3000), ("stores created with another language than their neighbours", 3000, 30000), ("searches repeating the text just sent to another id", 2000, 20000), ("histories whose result buffers are read only now and then", 5000, 50000), ("reads that add a record from inside the reader", 5000, 50000), ("searches repeated on the same id after a limit change", 5000, 50000), ("stores emptied in place through using_store", 2000, 20000), ("histories whose model stores answer on threads of their own", 5000, 50000), ("searches repeating the text this id was sent last", 3000, 30000), ("ids destroyed and created again under another language, then sent the same text", 3000, 30000), ("limits written through using_store", 500, 5000), ("marker pairs set right after a closely related pair", 1000, 10000), ("long registry sessions", 48, 480), ("long registry sessions of 2^16 calls or more between two equal searches", 30, 300), ("calls in long registry sessions", 2000000, 20000000)],
+            Which::Registry => vec![("observations", 20000, 200000), ("observations with >= 2 live ids holding results", 2000, 20000), ("destroy", 300, 3000), ("searches", 3000, 30000), ("histories over 4-20 store ids", 1000, 10000), ("bursts of 45-120 records", 300, 3000), ("stores created with another language than their neighbours", 3000, 30000), ("searches repeating the text just sent to another id", 2000, 20000), ("histories whose result buffers are read only now and then", 5000, 50000), ("reads that add a record from inside the reader", 5000, 50000), ("searches repeated on the same id after a limit change", 5000, 50000), ("stores emptied in place through using_store", 2000, 20000), ("histories whose model stores answer on threads of their own", 5000, 50000), ("searches repeating the text this id was sent last", 3000, 30000), ("ids destroyed and created again under another language, then sent the same text", 3000, 30000), ("limits written through using_store", 500, 5000), ("marker pairs set right after a closely related pair", 1000, 10000), ("long registry sessions", 48, 480), ("long registry sessions of 2^16 calls or more between two equal searches", 30, 300), ("calls in long registry sessions", 2000000, 20000000), ("crowds of tied copies listed under a generous limit and again under a lower one", 500, 5000)],
         }
     }
     fn run(&self, cx: &mut Cx, stream: &str, idx: u64) {
